@@ -194,7 +194,9 @@ def mmd_conditioning(P, A, ovo, eps=1e-12):
     else:
         u = np.full(n, 1.0 / n)
         vals = [quad(cond[k] - u) for k in range(K)]
-    return (min(vals) if vals else scale) / scale
+    # |delta^2|: a clearly NEGATIVE squared distance (indefinite kernel) is clamped to 0 by the code — a regular point where that
+    # term is locally constant and its gradient exactly zero; only values near zero are ill-conditioned
+    return (min(abs(v) for v in vals) if vals else scale) / scale
 
 
 def D_w1(p, q, A):
